@@ -665,7 +665,7 @@ func runC09(ctx Ctx) int {
 	}
 	run.Set("charset_alignment_cases", nAlign)
 	run.Set("storage_answer_cases", nEnv)
-	deadline := devx.Deadline(map[string]time.Duration{"quick": 4 * time.Minute, "thorough": 25 * time.Minute}[run.Tier])
+	deadline := devx.Deadline(map[string]time.Duration{"quick": 4 * time.Minute, "thorough": 15 * time.Minute}[run.Tier])
 	n, complete := parallel(len(cases), deadline, func(i int) {
 		c := cases[i]
 		r := c09Exec(c, bases, meta)
@@ -688,7 +688,7 @@ func runC09(ctx Ctx) int {
 	{
 		cb, cs := 1, 90
 		if ev.Tier() == "thorough" {
-			cb, cs = 2, 1200
+			cb, cs = 2, 180
 		}
 		runConc(run, "C09", cb, cs)
 	}
